@@ -487,6 +487,25 @@ def run_case(case):
                             "(alpha, input) after an intervening call with other arguments "
                             "(max diff %.3g)" % float(np.max(np.abs(x3 - x))), wit,
                             mech="history:" + cls)
+    # the same array object as input and as a parameter of the prox (its bias / centre / bound):
+    # certified by the contract like every call; the parameter must come back unchanged
+    for attr in ("y", "bias", "lower", "upper"):
+        par = getattr(P, attr, None)
+        if isinstance(par, np.ndarray) and list(par.shape) == list(shape) and \
+                par.dtype == y0.dtype and case["pseed"] % 4 == 2:
+            keep_ = par.copy()
+            try:
+                P(alpha, par)
+            except Exception as e:
+                if prox_mon.in_chain(e, "_vf_unresolvable"):
+                    break
+                return violated(sig, "prox applied to its own parameter array %r raised %s" % (
+                    attr, type(e).__name__), wit, mech="raised:" + cls)
+            checks += 1
+            if not np.array_equal(par, keep_):
+                return violated(sig, "prox applied to its own parameter array %r modified it"
+                                % attr, wit, mech="param-as-input:" + cls)
+            break
     # certificate branch observed for this call (for distinctness)
     br = [k[11:] for k in STATE.count if k.startswith("proxbranch:")
           and STATE.count[k] > before.get(k, 0)]
